@@ -20,6 +20,7 @@ ALL = set(TokenCategory)
 
 def doc_inputs(g, **params):
     rng = g.seeded_rng('doc.seed')
+    params.setdefault('early_end', True)        # spines that end before the others (C02's model: terminators anywhere)
     score = gen_score(rng, **params)
     return score, rng
 
@@ -111,12 +112,20 @@ class import_mirrors_text:
         if r.kind in ('global', 'header'):
             return True
         lines = [x.text for x in rows]
-        lines[extra_row] = r.text + '\t' + ('*' if r.kind in ('ops', 'interp') else ('!x' if r.kind == 'fcomment' else '4c'))
-        try:
-            kp.loads('\n'.join(lines) + '\n')
-        except Exception:
-            return True
-        return False
+        cell = '*' if r.kind in ('ops', 'interp') else ('!x' if r.kind == 'fcomment' else '4c')
+        # the surplus cell: an ordinary one at the end, or an empty / blank one at the end, at the start or between two cells (a
+        # blank cell is a cell: the cells to its right must not slide into its place)
+        cells = r.text.split('\t')
+        k = extra_row % (len(cells) + 1)
+        variants = [r.text + '\t' + cell, r.text + '\t', r.text + '\t ', '\t'.join(cells[:k] + [''] + cells[k:]), '\t'.join(cells[:k] + [' '] + cells[k:])]
+        for v in variants:
+            lines[extra_row] = v
+            try:
+                kp.loads('\n'.join(lines) + '\n')
+            except Exception:
+                continue
+            return False
+        return True
 
 
 # ================================================================================================================ C03 / C01
